@@ -150,6 +150,26 @@ theorem C18_numeric_dim_refuse (N : NumOps F) (l r : Quant F) (h : l.dims ≠ r.
     unfold numBinSem numBin
     split <;> (cases x <;> simp [lift2])
 
+/-- **Trigonometric functions** take their argument in radians: for an angle (any unit of the angle
+    dimension, factor `k` to rad) the result is the function of `val·k`, for a plain number of the
+    number itself, and an argument of any other dimension is refused. -/
+theorem C18_trig (N : NumOps F) (a : Quant F) :
+    (a.dims = Dims.angle →
+      numFn N "sin" [some a] = some ⟨N.sin (N.mul a.val a.k), N.one, Dims.zero⟩ ∧
+      numFn N "cos" [some a] = some ⟨N.cos (N.mul a.val a.k), N.one, Dims.zero⟩ ∧
+      numFn N "tan" [some a] = some ⟨N.tan (N.mul a.val a.k), N.one, Dims.zero⟩) ∧
+    (a.dims.nodim = true →
+      numFn N "sin" [some a] = some ⟨N.sin a.val, N.one, Dims.zero⟩ ∧
+      numFn N "cos" [some a] = some ⟨N.cos a.val, N.one, Dims.zero⟩ ∧
+      numFn N "tan" [some a] = some ⟨N.tan a.val, N.one, Dims.zero⟩) ∧
+    (a.dims.nodim = false → a.dims ≠ Dims.angle →
+      numFn N "sin" [some a] = none ∧ numFn N "cos" [some a] = none ∧ numFn N "tan" [some a] = none) := by
+  refine ⟨fun h => ?_, fun h => ?_, fun h1 h2 => ?_⟩
+  · have hn : Dims.nodim Dims.angle = false := by decide
+    simp [numFn, toRad, h, hn]
+  · simp [numFn, toRad, h]
+  · simp [numFn, toRad, h1, h2]
+
 /-! ### each operand carries its unit; the result equals arithmetic on SI values -/
 
 /-- **Unit-aware arithmetic is exact** over any field: evaluating a tree with every operand
